@@ -187,10 +187,35 @@ static void canLike(W& w, const char* cls, uint8_t pt, uint32_t fullType, int pr
     w.outcome(mc::mix(mc::fnv_s(k), mc::mix(len, prior0 * 4 + hv)));
 }
 
-static inline void lin(W& w, int prior, size_t len)
+// LIN checksum over the data bytes (classic) or over protected id + data bytes (enhanced): inverted 8-bit sum with end-around carry
+static inline uint8_t linChecksum(const Bytes& d, int withPid)
+{
+    unsigned sum = withPid >= 0 ? (unsigned) withPid : 0;
+    for (uint8_t b : d)
+    {
+        sum += b;
+        if (sum > 0xFF)
+            sum -= 0xFF;
+    }
+    return (uint8_t) ~sum;
+}
+
+// hv: the checksum the header carries before the builder call under test: 0 an arbitrary value, 1 / 2 the CORRECT classic / enhanced
+// LIN checksum of the data the object holds at that moment (fields that are consistent with each other by the protocol's semantics
+// are still independent fields to the builder: setData changes the data, the length field and nothing else)
+static inline void lin(W& w, int prior, size_t len, int hv = 0)
 {
     using T = A::LinPayload;
-    auto hdr = [](T& p) { p.setLinId(0x2A); p.setParityBits(2); p.setChecksum(0xC3); p.setFlags(0x0100); };
+    uint8_t cks = 0xC3;
+    {
+        int pr = prior % 10;
+        Bytes held0 = pr == 0 ? Bytes{} : (pr < 4 ? pat(priorLen(pr, len, 255), 7) : pat(pr == 4 ? len : len / 2, 7));
+        if (hv == 1)
+            cks = linChecksum(held0, -1);
+        else if (hv == 2)
+            cks = linChecksum(held0, (2 << 6) | 0x2A);
+    }
+    auto hdr = [cks](T& p) { p.setLinId(0x2A); p.setParityBits(2); p.setChecksum(cks); p.setFlags(0x0100); };
     const int prior0 = prior;
     const bool held = prior >= 20;   // the object lives inside a Packet (a base-class copy made by setPayload) and is reached through getPayload()
     prior %= 20;
@@ -222,8 +247,8 @@ static inline void lin(W& w, int prior, size_t len)
         w.fail("builder:data-length:" + k, ofmt("setData(%zu bytes): getDataLength() = %u", len, p.getDataLength()));
     else if (len && (p.getData() == nullptr || memcmp(p.getData(), d.data(), len) != 0))
         w.fail("builder:data-bytes:" + k, "getData() returns other bytes");
-    if (p.getLinId() != 0x2A || p.getParityBits() != 2 || p.getChecksum() != 0xC3 || p.getFlags() != 0x0100)
-        w.fail("builder:header-field-not-preserved:" + k, ofmt("setData(%zu bytes) after prior contents %d changed a header field", len, prior));
+    if (p.getLinId() != 0x2A || p.getParityBits() != 2 || p.getChecksum() != cks || p.getFlags() != 0x0100)
+        w.fail("builder:header-field-not-preserved:" + k, ofmt("setData(%zu bytes) after prior contents %d changed a header field (checksum 0x%02x, was 0x%02x - variant %d)", len, prior, p.getChecksum(), cks, hv));
     if (p.getLength() != ref::HDR_LIN + len)
         w.fail("builder:payload-length:" + k, ofmt("getLength() = %zu, header + data = %zu", p.getLength(), ref::HDR_LIN + len));
     Bytes raw(p.getRawPayload(), p.getRawPayload() + p.getLength());
@@ -545,7 +570,7 @@ static inline void runCase(W& w, const std::string& cs)
     int hv = atoi(kv["hv"].c_str());
     if (cls == "can") canLike<A::CanPayload>(w, "CanPayload", ref::PT_CAN, A::PayloadType::can, prior, len, hv);
     else if (cls == "canfd") canLike<A::CanFdPayload>(w, "CanFdPayload", ref::PT_CANFD, A::PayloadType::canFd, prior, len, hv);
-    else if (cls == "lin") lin(w, prior, len);
+    else if (cls == "lin") lin(w, prior, len, hv);
     else if (cls == "eth") eth(w, prior, len);
     else if (cls == "analog") analog(w, prior, len, atoi(kv["dt"].c_str()));
     else if (cls == "cm")
@@ -598,6 +623,9 @@ static int runC13(mc::Run& run, const mc::Options& opt)
         for (size_t len = 0; len <= 255; ++len)
         {
             cases.push_back(ofmt("cls=lin;prior=%d;len=%zu", prior, len));
+            if (prior % 10)
+                for (int hv = 1; hv <= 2; ++hv)
+                    cases.push_back(ofmt("cls=lin;prior=%d;len=%zu;hv=%d", prior, len, hv));
             for (const char* c : {"can", "canfd"})
                 for (int hv = 0; hv < 4; ++hv)
                     cases.push_back(ofmt("cls=%s;prior=%d;len=%zu;hv=%d", c, prior, len, hv));
